@@ -117,19 +117,22 @@ PROPS = {
               'push_addition_circuit (sum + carry*2^n == x + y, carry into the MSB), push_negation_circuit (two\'s complement), '
               'push_subtraction_circuit (overflow wire true iff x - y is not representable, exact otherwise; signed and unsigned), '
               'push_comparator_circuit / push_gt_circuit / push_eq_circuit (exact signed/unsigned order and equality), and the lifted '
-              'compile arms for unary minus, + and -: an Overflow panic is recorded iff the exact result is not representable, the '
-              'result is exact otherwise. Multiplier, divider, shifter, casts and the composition inside compile are NOT proved: they '
-              'are covered by a bounded differential check through compile + eval against exact arithmetic (quick: boundary-directed '
-              'and random operands for all widths, all 16 binary operators, both unary operators, all casts, var/const operand modes; '
-              'thorough: additionally all 2^16 operand pairs of u8/i8 per operator and all source values of 8/16-bit casts).',
+              'compile arms: unary minus, + and - (an Overflow panic is recorded iff the exact result is not representable, the result is '
+              'exact otherwise); !, &, |, ^ (bit k of the result is the operation on bit k of the operands, no panic); <, > (exact signed / '
+              'unsigned comparison), ==, != (bit-for-bit agreement); << and >> (Overflow panic iff the amount is not below the width of x; '
+              'result bit i is bit i of x moved by the amount, zeros shifted in, the sign bit for >> of a signed x). Multiplier, divider, '
+              'casts, the constant-multiplication rewrite and the composition inside compile (operand evaluation, width extension, dispatch) are '
+              'NOT proved: they are covered by a bounded differential check through compile + eval against exact arithmetic (quick: '
+              'boundary-directed and random operands for all widths, all 16 binary operators, both unary operators, all casts, var/const '
+              'operand modes; thorough: additionally all 2^16 operand pairs of u8/i8 per operator and all source values of 8/16-bit casts).',
         note='Trusted: builder-core and panic-record contracts (proved in units builder / panic, which this check runs too); vstd '
-             '(Vec, slices, pow2 lemmas); Vec::split_off via vstd; rules R0-R3, R5, R7-R9; a lone `;` inserted after a unit-typed tail '
+             '(Vec, slices, pow2 lemmas, ghost iterators of ranges / reversed ranges / slices); Vec::split_off via vstd; derived PartialEq of the field-less enum Op is structural equality (admit); rules R0-R3, R5, R5c, R7-R9; a lone `;` inserted after a unit-typed tail '
              'expression where a proof block must follow. The operand types of an arm are abstract (only signedness is used).',
-        title='integer operators bit-exact at every width: adder / negation / subtraction / comparators / equality and the -x, +, - arms proved; '
-              'mul / div / shifts / casts by bounded differential check',
-        unverified=['Op::Mul (array multiplier, constant rewrite), Op::Div / Op::Mod (restoring divider), shifts, Cast / extend_to_bits, '
-                    'bitwise ops, comparisons at arm level: bounded differential only',
-                    'operand width extension and the dispatch inside the big Op arm of compile'],
+        title='integer operators bit-exact at every width: adder / negation / subtraction / comparators / equality circuits and the arms of '
+              '-x, !x, +, -, &, |, ^, <, >, ==, !=, <<, >> proved; * / % and casts by bounded differential check',
+        unverified=['Op::Mul (array multiplier, constant rewrite), Op::Div / Op::Mod (restoring divider), Cast / extend_to_bits (Kani for fixed width pairs): '
+                    'bounded differential only',
+                    'operand width extension and the dispatch inside the big Op arm of compile; <= and >= are desugared by the parser into (x < y) | (x == y) resp. (x > y) | (x == y)'],
     ),
     'C13': dict(
         units=['arith'],
